@@ -379,6 +379,8 @@ pub fn run(ctx: &Ctx) -> EvidenceMeta {
         },
         test,
     );
+    ctx.bytes_check("raw-bytes", raw_bytes);
+    ctx.bytes_check("raw-repaired", raw_repaired);
     EvidenceMeta {
         rule: "differential against an independently written RFC 8489 decoder (refstun::parse), both directions: accept iff accept, the \
                library's error must name one of the causes the reference finds true of the buffer, and on acceptance class, method, id, \
@@ -399,7 +401,27 @@ pub fn run(ctx: &Ctx) -> EvidenceMeta {
     }
 }
 
-pub fn replay(_check: &str, case: &Value, st: &mut Stats) -> Result<TestResult, String> {
+/// raw fuzz check: the input is the buffer
+fn raw_bytes(data: &[u8], st: &mut Stats) -> TestResult {
+    st.eval();
+    check_bytes(data, st)
+}
+
+/// raw fuzz check: the input repaired into a buffer whose header is valid and whose TLVs tile the
+/// body (first byte selects whether a FINGERPRINT gets the right CRC)
+fn raw_repaired(data: &[u8], st: &mut Stats) -> TestResult {
+    st.eval();
+    let Some((mode, rest)) = data.split_first() else { return Ok(()) };
+    check_bytes(&gen::repair_message(rest, mode & 1 == 0), st)
+}
+
+pub fn replay(check: &str, case: &Value, st: &mut Stats) -> Result<TestResult, String> {
+    if check == "raw-bytes" {
+        return Ok(raw_bytes(&gen::raw_case_bytes(case)?, st));
+    }
+    if check == "raw-repaired" {
+        return Ok(raw_repaired(&gen::raw_case_bytes(case)?, st));
+    }
     let c: Case = parse_case(case)?;
     Ok(test(&c, st))
 }
